@@ -67,8 +67,9 @@ impl Core {
         request_specific: &RequestSpecific,
     ) {
         if self.server_mode && !request_from_read_only_node {
-            if let RequestTypeSpecific::FindNode(ref param) = request_specific.request_type {
-                let node = Node::new(param.target, from);
+            if let RequestTypeSpecific::FindNode(_) = request_specific.request_type {
+                // The requester's own id, a FIND_NODE may be looking for any target.
+                let node = Node::new(request_specific.requester_id, from);
                 let supports_signed_peers = supports_signed_peers(version);
 
                 if self.bootstrap.is_empty() {
